@@ -5,7 +5,7 @@
 (*                 empty clause and the empty CNF are all included; shape "set": all       *)
 (*                 sets of <= MaxClauses distinct clauses over NVars variables)            *)
 (*   state       : cnf, derived (clauses derived so far, with ids), prf (their provenance  *)
-(*                 in the certificate format of sat.solve_cnf), saturated                  *)
+(*                 in the certificate format of sat.solve_cnf), saturated, mark            *)
 (*   action      : Saturate -- add every resolvent of two derived clauses (reference       *)
 (*                 refutation procedure; stops at the first empty clause)                  *)
 (*   properties  : ResolutionSound     every derived clause holds in every model of cnf    *)
@@ -30,17 +30,21 @@ SetCNFs == UNION { { LET ix == SortedIdx(I) IN [j \in 1..n |-> ClauseList[ix[j]]
                    : n \in 0..MaxClauses }
 CNFs == IF Shape = "seq" THEN SeqCNFs ELSE SetCNFs
 
-VARIABLES cnf, derived, prf, saturated
-vars == <<cnf, derived, prf, saturated>>
+VARIABLES cnf, derived, prf, saturated, mark
+vars == <<cnf, derived, prf, saturated, mark>>
 
 Init == /\ cnf \in CNFs
         /\ derived = [k \in 1..Len(cnf) |-> LitSet(cnf[k])]
         /\ prf = <<>>
         /\ saturated = FALSE
+        /\ mark = 0          \* all pairs among derived[1..mark] have been resolved already
 
 RangeS(s) == { s[i] : i \in 1..Len(s) }
-\* provenance of a resolvent R: 0-based ids of two derived clauses it is a resolvent of
-Prov(R, d) == CHOOSE p \in (1..Len(d)) \X (1..Len(d)) : R \in Resolvents(d[p[1]], d[p[2]])
+\* all resolution steps between derived clauses: <<i, j, resolvent>> (i, j 1-based positions in derived)
+\* (Resolvents is symmetric; pairs inside derived[1..mark] were done in earlier rounds; tautological resolvents are
+\*  discarded, as every refutation procedure may: they hold in every assignment and are never needed)
+Tautological(C) == \E l \in C : Neg(l) \in C
+Steps(d, m) == UNION { UNION { { <<i, j, R>> : R \in { R \in Resolvents(d[i], d[j]) : ~Tautological(R) } } : j \in (IF i > m THEN i ELSE m + 1)..Len(d) } : i \in 1..Len(d) }
 Saturate ==
   /\ ~saturated
   /\ UNCHANGED cnf
@@ -49,17 +53,19 @@ Saturate ==
           LET k == CHOOSE k \in 1..Len(derived) : derived[k] = {} IN
           /\ derived' = Append(derived, {})
           /\ prf' = << <<Len(derived), <<k - 1>> >> >>
-          /\ saturated' = TRUE
-     ELSE LET new == UNION { UNION { Resolvents(C, D) : D \in RangeS(derived) } : C \in RangeS(derived) } \ RangeS(derived) IN
+          /\ saturated' = TRUE /\ mark' = mark
+     ELSE LET steps == Steps(derived, mark)
+              new == { t[3] : t \in steps } \ RangeS(derived)
+              Prov(R) == CHOOSE t \in steps : t[3] = R IN     \* provenance: 0-based ids of the two clauses resolved
           IF {} \in new
-          THEN LET p == Prov({}, derived) IN
+          THEN LET p == Prov({}) IN
                /\ derived' = Append(derived, {})
                /\ prf' = Append(prf, <<Len(derived), <<p[1] - 1, p[2] - 1>> >>)
-               /\ saturated' = TRUE
+               /\ saturated' = TRUE /\ mark' = mark
           ELSE LET ns == SetToSeq(new) IN
                /\ derived' = derived \o ns
-               /\ prf' = prf \o [i \in 1..Len(ns) |-> LET p == Prov(ns[i], derived) IN <<Len(derived) + i - 1, <<p[1] - 1, p[2] - 1>> >>]
-               /\ saturated' = (new = {})
+               /\ prf' = prf \o [i \in 1..Len(ns) |-> LET p == Prov(ns[i]) IN <<Len(derived) + i - 1, <<p[1] - 1, p[2] - 1>> >>]
+               /\ saturated' = (new = {}) /\ mark' = Len(derived)
 Next == Saturate
 Spec == Init /\ [][Next]_vars
 
@@ -67,9 +73,10 @@ Spec == Init /\ [][Next]_vars
 ResolutionSound == \A C \in RangeS(derived) : \A m \in Models(cnf) : HoldsIn(C, m)
 RefutationComplete == saturated => (({} \in RangeS(derived)) <=> ~Satisfiable(cnf))
 CertificateAccepted == (saturated /\ {} \in RangeS(derived)) => ValidRefutation(cnf, prf)
-CertificateOnlyIfUnsat == ValidRefutation(cnf, prf) => ~Satisfiable(cnf)
+CertificateOnlyIfUnsat == (saturated /\ ValidRefutation(cnf, prf)) => ~Satisfiable(cnf)
 \* the replay of the recorded provenance reconstructs exactly the derived clauses
-ReplayFaithful == LET r == ReplayAll(cnf, prf) IN
+ReplayFaithful == saturated =>
+                  LET r == ReplayAll(cnf, prf) IN
                   r.ok /\ \A i \in 1..Len(derived) : derived[i] \in r.known[i - 1]
 
 \* ---------------------------------------------------------------- vectors (spec -> code)
